@@ -570,3 +570,157 @@ def run_scenario(sc):
             pass
         asyncio.set_event_loop(None)
         loop.close()
+
+
+# ---------------------------------------------------------------------------------------------
+# WebSocket close under a stalled peer (C18: "… or during a WebSocket close")
+
+def run_ws_scenario(sc):
+    """sc: arg = ["default"] | ["obj", ws_receive|None, ws_close|None] | ["float", ws_close]   (ms)
+           recv = None | ms           deprecated receive_timeout= argument
+           close_at = ms              the caller calls ws.close() (handshake is answered at once)
+           peer = -1 | ms             the peer answers the CLOSE frame at that instant (-1: stays silent)
+           cancel = None | ms         Task.cancel() of the caller
+    returns canonical observables"""
+    import base64, hashlib, warnings
+    import aiohttp
+    import aiohttp.connector as cmod
+
+    loop = DLoop()
+    asyncio.set_event_loop(loop)
+    excs = []
+    loop.set_exception_handler(lambda l, c: excs.append(c))
+    env = Env(loop, {"dns": None})
+    saved = (cmod.aiohappyeyeballs.start_connection, cmod.create_connection)
+    out = {}
+
+    def sec(v):
+        return None if v is None else v / 1000.0
+
+    async def main():
+        conn = aiohttp.TCPConnector(limit=1, resolver=env)
+        conn._resolver_owner = False
+        session = aiohttp.ClientSession(connector=conn, timeout=aiohttp.ClientTimeout(total=None))
+        res, at, eff = {}, {}, {}
+
+        def handshake():
+            tr = env.r_transport()
+            if tr is None:
+                return
+            head = bytes(tr.out)
+            if b"\r\n\r\n" not in head or tr.answered:
+                loop.call_soon(handshake) if not tr.closing and not tr.answered and len(head) == 0 else None
+                return
+            tr.answered = 1
+            key = [l.split(b":", 1)[1].strip() for l in head.split(b"\r\n") if l.lower().startswith(b"sec-websocket-key")][0]
+            acc = base64.b64encode(hashlib.sha1(key + b"258EAFA5-E914-47DA-95CA-C5AB0DC85B11").digest())
+            tr.feed(b"HTTP/1.1 101 Switching Protocols\r\nUpgrade: websocket\r\nConnection: upgrade\r\n"
+                    b"Sec-WebSocket-Accept: " + acc + b"\r\n\r\n")
+
+        async def job():
+            kw = {}
+            a = sc["arg"]
+            if a[0] == "obj":
+                kw["timeout"] = aiohttp.ClientWSTimeout(ws_receive=sec(a[1]), ws_close=sec(a[2]))
+            elif a[0] == "float":
+                kw["timeout"] = sec(a[1])
+            if sc.get("recv") is not None:
+                kw["receive_timeout"] = sec(sc["recv"])
+            try:
+                with warnings.catch_warnings():
+                    warnings.simplefilter("ignore")
+                    cm = session.ws_connect("http://10.0.0.1/ws", **kw)
+                    t = asyncio.ensure_future(cm.__aenter__())
+                    t.set_name("R")
+                    for _ in range(6):
+                        await asyncio.sleep(0)
+                        handshake()
+                    ws = await t
+                t = ws._timeout
+                eff["recv"] = None if t.ws_receive is None else int(round(t.ws_receive * 1000))
+                eff["close"] = None if t.ws_close is None else int(round(t.ws_close * 1000))
+                await asyncio.sleep(sc["close_at"] / 1000.0 - loop.time())
+                at["close_called"] = ms(loop)
+                r = await ws.close()
+                res["R"] = "closed" if r else "already"
+                eff["code"] = ws.close_code
+            except BaseException as e:  # noqa
+                res["R"] = _classify(e)
+            at["R"] = ms(loop)
+
+        task = loop.create_task(job(), name="R")
+
+        def peer_close():
+            tr = env.r_transport()
+            if tr is not None:
+                tr.feed(b"\x88\x02\x03\xe8")
+        if sc.get("peer", -1) >= 0:
+            loop.call_at(sc["peer"] / 1000.0, peer_close)
+        if sc.get("cancel") is not None:
+            loop.call_at(sc["cancel"] / 1000.0, task.cancel)
+        await asyncio.sleep(T_OBS / 1000.0 - loop.time())
+        cur = asyncio.current_task()
+        live = sorted(t.get_name() if t.get_name() == "R" else "task" for t in asyncio.all_tasks(loop)
+                      if t is not cur and not t.done())
+        out.update(r=res.get("R", "pending"), r_at=at.get("R", -1), close_called=at.get("close_called", -1),
+                   eff_recv=eff.get("recv", "?"), eff_close=eff.get("close", "?"), code=eff.get("code"),
+                   acquired=len(conn._acquired), open_r=sum(1 for tr in env.transports if tr.owner == "R" and not tr.closing),
+                   live=live)
+        # follow-up on the same session
+        for tr in env.transports:
+            tr.auto = False
+        env.unstalled = True
+        if not task.done():
+            task.cancel()
+            await asyncio.sleep(0.01)
+        f = {}
+
+        async def follow():
+            try:
+                async with session.get("http://10.0.0.2/", timeout=aiohttp.ClientTimeout(total=50)) as r:
+                    f["r"] = "ok" if await r.read() == b"ok" else "E_OTHER(body)"
+            except BaseException as e:  # noqa
+                f["r"] = _classify(e)
+        ft = loop.create_task(follow(), name="F")
+        await asyncio.sleep(100)
+        out["follow"] = f.get("r", "pending")
+        if not ft.done():
+            ft.cancel()
+        await asyncio.sleep(0)
+        await session.close()
+        return out
+
+    cmod.aiohappyeyeballs.start_connection = env.start_connection
+    cmod.create_connection = env.create_connection
+    try:
+        env.unstalled = False
+        # R's connect completes at once in WS scenarios
+        orig_start = env.start_connection
+
+        async def start_now(addr_infos, **kw):
+            sock = FakeSock()
+            env.socks.append(sock)
+            return sock
+        cmod.aiohappyeyeballs.start_connection = start_now
+        task = loop.create_task(main(), name="main")
+        task.add_done_callback(lambda t: loop.stop())
+        loop.run_forever()
+        if not task.done():
+            out["harness"] = "quiescent"
+        elif task.exception() is not None:
+            out["harness"] = "E_OTHER(" + type(task.exception()).__name__ + ")"
+            out["harness_detail"] = repr(task.exception())
+        return out
+    finally:
+        cmod.aiohappyeyeballs.start_connection, cmod.create_connection = saved
+        loop.stop_on_quiescence = False
+        try:
+            pending = [t for t in asyncio.all_tasks(loop) if not t.done()]
+            for t in pending:
+                t.cancel()
+            if pending:
+                loop.run_until_complete(asyncio.gather(*pending, return_exceptions=True))
+        except BaseException:
+            pass
+        asyncio.set_event_loop(None)
+        loop.close()
